@@ -91,8 +91,9 @@ def run_drv(work, binary, tier, seed, tag, only=None):
     tf = work.path("trace_drv_%s.ndjson" % tag)
     args = ["run", "-trace", tf, "-tier", tier, "-seed", seed, "-fixtures", FIXTURES]
     if only is not None:
+        # one input per line: <id> or <id>\t<base64 of the exact bytes> (seeded mutations)
         of = work.path("only_%s.txt" % tag)
-        open(of, "w").write("\n".join(sorted(only)) + "\n")
+        open(of, "w").write("".join("%s\t%s\n" % (i, b) if b else i + "\n" for i, b in sorted(only.items())))
         args += ["-only", of]
     t0 = time.time()
     out = run_driver(binary, args, timeout=3000)
@@ -154,13 +155,15 @@ def rej_key(ev, reason):
     return (ev["id"], ev.get("via", ""), reason)
 
 
-def reproduce(work, binary, tier, seed, rej, times=2):
+def reproduce(work, binary, tier, seed, rej, stats, times=2):
     keep = {rej_key(ev, r): (ev, r) for ev, r in rej}
     for i in range(times):
         if not keep:
             break
-        ids = {k[0] for k in keep}
+        ids = {ev["id"]: ev.get("input", "") for ev, _r in keep.values()}
         lines = execute(work, binary, tier, seed, "repro%d" % i, only=ids)
+        if i == 0:
+            stats["not_reexecuted"] = len(set(ids) - {x["id"] for x in lines})
         v = judge(work, lines, "repro%d" % i)
         again = {rej_key(ev, r) for ev, r in rejections(lines, v)}
         keep = {k: x for k, x in keep.items() if k in again}
@@ -215,7 +218,7 @@ def run(tier, seed, replay=None):
         confirmed = []
         if rej:
             log("%d rejections on %d inputs; re-executing them in isolation" % (len(rej), len({e["id"] for e, _ in rej})))
-            confirmed = reproduce(work, binary, tier, seed, rej)
+            confirmed = reproduce(work, binary, tier, seed, rej, verdict.coverage)
         if os.environ.get("VERIF_C19_DUMP"):
             write_ndjson(os.environ["VERIF_C19_DUMP"], [{"ev": ev, "facts": facts_of(ev, r)} for ev, r in confirmed])
         for ev, reason in confirmed:
@@ -269,7 +272,7 @@ def run(tier, seed, replay=None):
 
 def do_replay(work, binary, tier, seed, replay):
     evs = read_ndjson(os.path.abspath(replay))
-    ids = {e["id"] for e in evs}
+    ids = {e["id"]: e.get("input", "") for e in evs}
     lines = execute(work, binary, tier, seed, "replay", only=ids)
     v = judge(work, lines, "replay")
     known = load_known(PROP)
